@@ -38,6 +38,9 @@ type Config struct {
 	CsServe bool       `json:"cs_serve"`
 	CsCap   int        `json:"cs_cap"`
 	DnlMs   int        `json:"dnl_ms"`
+	// Thread: the forwarding thread under test is thread number Thread of Thread+1 (the others are idle; packets are
+	// handed to it directly). Its number is part of every PIT token it issues, and nothing else may depend on it
+	Thread int `json:"thread,omitempty"`
 	Faces   []FaceCfg  `json:"faces"`
 	Routes  []RouteCfg `json:"routes"`
 	Strats  []StratCfg `json:"strategies"`
@@ -304,6 +307,9 @@ func (Engine) Generate(prop string, r *kit.Rand, tier string) *kit.Scenario[Conf
 	c.CsServe = r.Chance(0.75)
 	if prop == "C07" {
 		c.CsAdmit, c.CsServe = true, r.Chance(0.9)
+	}
+	if r.Chance(0.3) {
+		c.Thread = r.Range(1, 7)
 	}
 	c.CsCap = kit.Pick(r, []int{0, 1, 2, 3, 4, 8, 1024})
 	if prop == "C07" || prop == "C08" {
@@ -622,6 +628,12 @@ func (Engine) Simplify(sc *kit.Scenario[Config, Op]) []*kit.Scenario[Config, Op]
 		f(&c)
 		n.Config = c
 		out = append(out, n)
+	}
+	if sc.Config.Thread > 1 {
+		modCfg(func(c *Config) { c.Thread = 1 })
+	}
+	if sc.Config.Thread > 0 {
+		modCfg(func(c *Config) { c.Thread = 0 })
 	}
 	for i := range sc.Config.Routes {
 		i := i
